@@ -297,6 +297,132 @@ fn replay<C: Config>(cases: &str, out: &str, shard: (usize, usize), nvecs: usize
     marks.flush().unwrap();
 }
 
+struct Rng(u64);
+impl Rng {
+    fn next(&mut self) -> u64 { let mut x = self.0; x ^= x << 13; x ^= x >> 7; x ^= x << 17; self.0 = x; x }
+    fn below(&mut self, n: usize) -> usize { if n == 0 { 0 } else { (self.next() % n as u64) as usize } }
+    fn chance(&mut self, pct: usize) -> bool { self.below(100) < pct }
+    fn pick<'a>(&mut self, xs: &[&'a str]) -> &'a str { xs[self.below(xs.len())] }
+}
+
+/// Direction B: one long random history on large vectors, logged as a chain of events (every event judged by TLC).
+/// The driver only uses what it legitimately knows (which handles it holds, lengths it read through the API) to pick
+/// applicable actions; it judges nothing.
+fn random_run<C: Config>(out: &str, seed: u64, steps: usize, maxlen: usize, nvecs: usize, profile: &str) {
+    let mut rng = Rng(seed.wrapping_mul(0x9E3779B97F4A7C15) | 1);
+    for _ in 0..8 { rng.next(); }
+    reg::reset();
+    reg::clear_cbs();
+    let mut world: World<C> = World::new(nvecs);
+    let (icbs, _) = reg::take_cbs();
+    let (_, _, _, _, init_mem) = cbs_json(&icbs);
+    let mut init = world.observe();
+    init["mem"] = json!(init_mem);
+    let f = std::fs::File::create(out).expect("out file");
+    let mut w = BufWriter::new(f);
+    let marks = std::fs::File::create(format!("{}.run", out)).expect("marker file");
+    let mut marks = BufWriter::new(marks);
+    writeln!(w, "{}", json!({"id": 0, "cfg": cfg_json::<C>(profile), "init": init, "kids": [2], "nvecs": nvecs, "seed": seed})).unwrap();
+    let (fixed, fcap, _) = C::backend();
+    let names = &VNAMES[..nvecs];
+    let sink_of = |rng: &mut Rng, world: &World<C>, x: usize, allow_keep: bool| -> Value {
+        let others: Vec<usize> = (0..nvecs).filter(|w| *w != x && world.vs[*w].h.is_none() && world.vs[*w].kept.is_empty()).collect();
+        let r = rng.below(100);
+        if r < 35 { json!({"k": "drop", "to": "", "i": 0}) }
+        else if r < 50 && world.ext.len() < 32 { json!({"k": "ext", "to": "", "i": 0}) }
+        else if r < 75 && !others.is_empty() {
+            let wv = others[rng.below(others.len())];
+            let wl = world.v(wv).len();
+            if fixed && wl as i64 >= fcap { json!({"k": "drop", "to": "", "i": 0}) }
+            else if rng.chance(50) { json!({"k": "push", "to": VNAMES[wv], "i": 0}) } else { json!({"k": "insert", "to": VNAMES[wv], "i": rng.below(wl + 1)}) }
+        }
+        else if r < 78 { json!({"k": "forget", "to": "", "i": 0}) }
+        else if r < 84 && allow_keep && world.vs[x].kept.len() < 3 { json!({"k": "keep", "to": "", "i": 0}) }
+        else { json!({"k": "drop", "to": "", "i": 0}) }
+    };
+    for step in 0..steps {
+        let x = rng.below(nvecs);
+        let hk: u8 = match &world.vs[x].h { None => if world.vs[x].kept.is_empty() { 0 } else { 3 }, Some(Handle::Pop(_)) | Some(Handle::Remove(_)) | Some(Handle::SwapRemove(_)) => 1,
+                                        Some(Handle::Iters(_)) => 4, Some(_) => 2 };
+        let v = names[x];
+        let act: Value = match hk {
+            1 => if rng.chance(15) { json!({"op": "hmutate", "v": v, "via": rng.pick(&["downcast_mut", "bytes_mut"])}) }
+                 else { json!({"op": "consume", "v": v, "sink": sink_of(&mut rng, &world, x, false)}) },
+            2 => {
+                let typed = matches!(world.vs[x].h, Some(Handle::Typed(_)));
+                if !world.vs[x].kept.is_empty() && rng.chance(60) {
+                    json!({"op": "item_consume", "v": v, "k": 1 + rng.below(world.vs[x].kept.len()), "sink": sink_of(&mut rng, &world, x, false)})
+                } else if rng.chance(70) {
+                    let sk = if typed { if rng.chance(50) && world.ext.len() < 32 { json!({"k": "ext", "to": "", "i": 0}) } else { json!({"k": "drop", "to": "", "i": 0}) } }
+                             else { sink_of(&mut rng, &world, x, true) };
+                    json!({"op": "next", "v": v, "end": rng.pick(&["front", "back"]), "sink": sk})
+                } else if !world.vs[x].kept.is_empty() {
+                    json!({"op": "item_consume", "v": v, "k": 1, "sink": {"k": "drop", "to": "", "i": 0}})
+                } else if rng.chance(4) { json!({"op": "range_forget", "v": v}) } else { json!({"op": "range_drop", "v": v}) }
+            }
+            3 => json!({"op": "item_consume", "v": v, "k": 1, "sink": {"k": "drop", "to": "", "i": 0}}),
+            4 => if rng.chance(70) { json!({"op": "iter_next", "v": v, "k": 1, "end": rng.pick(&["front", "back"])}) } else { json!({"op": "iter_end", "v": v}) },
+            _ => {
+                let len = world.v(x).len();
+                let room = !fixed || (len as i64) < fcap;
+                let grow = len < maxlen && room;
+                let r = rng.below(100);
+                let src = rng.pick(&["wrapper", "raw", "typed"]);
+                let gp = if len < maxlen / 2 { 62 } else { 30 };
+                if (r < gp && grow) || len == 0 && room {
+                    if rng.chance(55) { json!({"op": "push", "v": v, "src": src}) } else { json!({"op": "insert", "v": v, "i": rng.below(len + 1) + (rng.chance(3) as usize) * 2, "src": src}) }
+                } else if r < 44 { json!({"op": rng.pick(&["pop_begin", "remove_begin", "swap_remove_begin"]), "v": v, "i": if rng.chance(4) { len + rng.below(2) } else { rng.below(len.max(1)) }}) }
+                else if r < 52 { json!({"op": rng.pick(&["tpop", "tremove", "tswap_remove"]), "v": v, "i": rng.below(len.max(1)),
+                                        "sink": if rng.chance(50) && world.ext.len() < 32 { json!({"k": "ext", "to": "", "i": 0}) } else { json!({"k": "drop", "to": "", "i": 0}) }}) }
+                else if r < 58 { json!({"op": "get", "v": v, "i": if rng.chance(10) { len + rng.below(2) } else { rng.below(len.max(1)) },
+                                        "kind": rng.pick(&["get", "get_mut", "tget", "tget_mut", "at", "tat"])}) }
+                else if r < 64 && len > 0 { json!({"op": "mutate", "v": v, "i": rng.below(len), "via": rng.pick(&["elem_mut", "bytes_mut", "typed", "slice", "iter_mut", "titer_mut"])}) }
+                else if r < 80 {
+                    let s0 = rng.below(len + 1);
+                    let e0 = s0 + rng.below((len - s0).min(12) + 1);
+                    let (s0, e0) = if rng.chance(3) { (e0 + 1, e0) } else if rng.chance(3) { (s0, len + 1) } else { (s0, e0) };
+                    let typed = rng.chance(35);
+                    if rng.chance(50) {
+                        json!({"op": "drain_begin", "v": v, "sk": "inc", "sv": s0, "ek": "exc", "ev": e0, "path": if typed { "typed" } else { "erased" }})
+                    } else {
+                        let mut n = rng.below(6);
+                        if fixed { let removed = if s0 <= e0 && e0 <= len { e0 - s0 } else { 0 }; n = n.min(((fcap as usize).saturating_sub(len - removed)).min(5)); }
+                        let ssrc = if typed { "typed" } else { rng.pick(&["wrapper", "raw"]) };
+                        json!({"op": "splice_begin", "v": v, "sk": "inc", "sv": s0, "ek": "exc", "ev": e0, "path": if typed { "typed" } else { "erased" }, "n": n, "src": ssrc, "delta": 0})
+                    }
+                }
+                else if r < 84 { json!({"op": "iter_begin", "v": v, "kind": rng.pick(&["iter", "iter_mut", "titer", "titer_mut"])}) }
+                else if r < 90 && C::RESIZABLE {
+                    let cap = world.v(x).capacity();
+                    match rng.below(4) {
+                        0 => json!({"op": "reserve", "v": v, "n": rng.below(20), "path": rng.pick(&["erased", "typed"])}),
+                        1 => json!({"op": "reserve_exact", "v": v, "n": rng.below(20), "path": rng.pick(&["erased", "typed"])}),
+                        2 => json!({"op": "shrink_to_fit", "v": v, "n": 0, "path": rng.pick(&["erased", "typed"])}),
+                        _ => json!({"op": "shrink_to", "v": v, "n": rng.below(cap + 3), "path": rng.pick(&["erased", "typed"])}),
+                    }
+                }
+                else if r < 92 && !world.ext.is_empty() { json!({"op": "ext_drop", "v": v}) }
+                else if r < 93 && len > 0 && rng.chance(12) { json!({"op": "clear", "v": v, "path": rng.pick(&["erased", "typed"])}) }
+                else if len > 0 { json!({"op": "get", "v": v, "i": rng.below(len), "kind": "get"}) }
+                else { json!({"op": "push", "v": v, "src": src}) }
+            }
+        };
+        writeln!(marks, "{}", step + 1).unwrap();
+        marks.flush().unwrap();
+        let (o, cbs, ovf) = world.step(&act);
+        let post = world.observe();
+        let mut ev = event_json::<C>((step + 1) as i64, &act, &o, &cbs, ovf, &post, &mut world);
+        let last = step + 1 == steps;
+        finish_td::<C>(&mut ev, &mut world, !last);
+        ev["kids"] = if last { json!([]) } else { json!([step + 3]) };
+        writeln!(w, "{}", ev).unwrap();
+    }
+    w.flush().unwrap();
+    writeln!(marks, "FAULTS 0").unwrap();
+    writeln!(marks, "DONE {} 0", steps).unwrap();
+    marks.flush().unwrap();
+}
+
 fn event_json<C: Config>(id: i64, act: &Value, o: &ActOut, cbs: &[reg::Cb], ovf: bool, post: &Value, world: &mut World<C>) -> Value {
     let mut note = o.note.clone();
     note.extend(world.notes.drain(..));
@@ -332,6 +458,9 @@ fn main() {
     let mut nvecs = 2usize;
     let mut skip: Vec<i64> = vec![];
     let mut faults = false;
+    let mut seed = 1u64;
+    let mut steps = 1000usize;
+    let mut maxlen = 64usize;
     let mut i = 2;
     while i < args.len() {
         match args[i].as_str() {
@@ -339,6 +468,9 @@ fn main() {
             "--cases" => { cases = args[i + 1].clone(); i += 2; }
             "--out" => { out = args[i + 1].clone(); i += 2; }
             "--faults" => { faults = true; i += 1; }
+            "--seed" => { seed = args[i + 1].parse().unwrap(); i += 2; }
+            "--steps" => { steps = args[i + 1].parse().unwrap(); i += 2; }
+            "--maxlen" => { maxlen = args[i + 1].parse().unwrap(); i += 2; }
             "--skip" => { skip = args[i + 1].split(',').filter(|x| !x.is_empty()).map(|x| x.parse().unwrap()).collect(); i += 2; }
             "--nvecs" => { nvecs = args[i + 1].parse().unwrap(); i += 2; }
             "--shard" => { let p: Vec<usize> = args[i + 1].split('/').map(|x| x.parse().unwrap()).collect(); shard = (p[0], p[1]); i += 2; }
@@ -351,6 +483,7 @@ fn main() {
             match (args[1].as_str(), cfg.as_str()) {
                 ("list", _) => { $( println!("{}", <$c as Config>::NAME); )* }
                 $( ("replay", x) if x == <$c as Config>::NAME => replay::<$c>(&cases, &out, shard, nvecs, profile, &skip, faults), )*
+                $( ("random", x) if x == <$c as Config>::NAME => random_run::<$c>(&out, seed, steps, maxlen, nvecs, profile), )*
                 _ => { eprintln!("unknown command/config"); std::process::exit(3); }
             }
         };
